@@ -1,12 +1,12 @@
 (* C02 — Token supply is conserved (no inflation, no silent loss).
    Only statements here; proofs are in proofs/SupplyProofs.v, proofs/CVProofs.v,
-   proofs/LedgerProofs.v, witnesses in proofs/CVWitness.v.
+   proofs/LedgerProofs.v, proofs/ModeProofs.v, witnesses in proofs/CVWitness.v.
 
    Model: model/CV.v (Block::generate_consensus_values), model/Supply.v (Block::create,
-   Block::validate, ledger effects, Blockchain::check_total_supply), tied to the real code
-   by harness/src/bin/c02.rs (every header field / rebroadcast / fee transaction of every
-   block the real Block::create builds, the verdict of the real add_block and the in-window
-   utxo set after it, debug and release profiles).
+   Block::validate, ledger effects, Blockchain::check_total_supply), code as of /repo
+   92b2ed5, tied to the real code by harness/src/bin/c02.rs (every header field /
+   rebroadcast / fee transaction of every block the real Block::create builds, the verdict
+   of the real add_block and the in-window utxo set after it, debug and release profiles).
 
    The property at full strength is
 
@@ -14,34 +14,35 @@
      (supply = spendable in-window non-Bound outputs + treasury + graveyard + unpaid fees
                + the tip's collected fees, in unbounded N)
 
-   and it is FALSE for the pinned code: the *_refuted theorems below exhibit blocks that the
-   model's (and the real) Block::validate accepts and that change the supply; each was
-   reproduced on the real node (known_findings.txt).  The positive theorems hold for every
-   accepted block outside these specific, decidable classes (Known.clean):
-     Known_C02_special_tx        a BlockStake / Bound / Vip / SPV transaction or a Bound slip
-                                 (their fees are counted in no reservoir)
-     Known_C02_nft_expiring      the block leaving the window carries Bound (NFT) outputs
-                                 (the rebroadcast NFT payload is not reduced by the fee)
-     Known_C02_cap_branch        the 5 % treasury cap branch of the rebroadcast section
-     Known_C02_fee_tx_omitted    a payout is due but the block carries no fee transaction
-     Known_C02_zero_miner        the golden ticket names the all-zero key while a share is due
-     Known_C13_expired_input     a transaction spends an output older than the window
-     Known_C13_rebroadcast_input_elsewhere   a rebroadcast consumes an in-window output
-     Known_C13_id_jump           the block id is not the parent's id + 1 (ids are not checked)
-     Known_C02_saturated         an input or output sum of 2^64 or more (saturating sums)
+   Since the repairs 60ba6d1 / b8552b5 / 1fdb9e1 / bb88717 / f640126 / 6b3137c / e1b5241 /
+   5a3c1b6 / 66d7fd0 / 8712765 / 812712b the step theorem derives from Block::validate itself
+   that the block id follows the parent's, that the fee transaction is carried when due, that
+   the golden ticket names a real key, that no input is older than the window and that the
+   rebroadcasts consume exactly the outputs that leave it; fees of every user-originated type,
+   the 5 % cap branch and the saturating payout arithmetic are covered.  The witnesses of all
+   defects found so far are kept as regression Examples (refused, or accepted with the supply
+   unchanged); no accepted block that changes the supply is known for 92b2ed5.  What the
+   theorems leave out (Known.clean) is scope, not a known defect:
+     Known_C02_bound_or_spv   the block carries a Bound (NFT) slip or an SPV-typed transaction
+     Known_C02_nft_expiring   the block leaving the window carries Bound outputs
+                              (the NFT shapes are decided by Transaction::validate = the oracle
+                              field t_ok of this model, property C01; replayed by the harness)
+     Known_C02_saturated      an input or output sum of 2^64 or more (saturating sums), or the
+                              abstract cap05 returning 2^64-1 or more for the parent's treasury
+                              (impossible for the real (x as f64 * 0.05) as u64)
    "accepted" in the positive theorems means accepted with all consensus values evaluated in
-   unbounded arithmetic (validate_m MInf).  For the debug profile (overflow checks) that is
-   implied by acceptance in u64 arithmetic (C02_debug_accept_is_unbounded_accept); in the release
-   profile a block that is accepted only because a u64 operation wrapped is outside the theorems
-   (the harness runs both profiles against the model, which has every u64 operation explicit). *)
-From Saito Require Import Base CV Supply Known CVProofs LedgerProofs SupplyProofs ModeProofs CVWitness.
+   unbounded arithmetic (validate_m MInf).  That is implied by acceptance in the debug profile
+   (C02_debug_accept_is_unbounded_accept); a block accepted in the release profile is accepted
+   in unbounded arithmetic as well unless a u64 operation wrapped on the way
+   (C02_release_accept_dichotomy). *)
+From Saito Require Import Base CV Supply Known CVProofs LedgerProofs SupplyProofs ModeProofs SupplyModes CVWitness.
 
 (* one accepted block leaves the supply unchanged; for every pair of cap functions
    (x*1.5, x*0.05), every configuration *)
 Theorem C02_supply_step : forall cap15 cap05 cf st b,
   Inv st -> located b ->
   validate_m cap15 cap05 cf MInf st b = Ok true ->
-  clean cap15 cap05 cf st b = true ->
+  clean cap05 cf st b = true ->
   supply (cf_gp cf) (wind cf st b) = supply (cf_gp cf) st.
 Proof. exact supply_step. Qed.
 
@@ -57,18 +58,24 @@ Proof. exact debug_accept_is_unbounded_accept. Qed.
 Theorem C02_supply_step_debug : forall cap15 cap05 cf st b,
   cf_dbg cf = true -> Inv st -> located b ->
   validate cap15 cap05 cf st b = Ok true ->
-  clean cap15 cap05 cf st b = true ->
+  clean cap05 cf st b = true ->
   supply (cf_gp cf) (wind cf st b) = supply (cf_gp cf) st.
-Proof.
-  intros cap15 cap05 cf st b Hd HI Hl Hv Hc.
-  exact (supply_step cap15 cap05 cf st b HI Hl (debug_accept_is_unbounded_accept _ _ _ _ _ Hd Hv) Hc).
-Qed.
+Proof. exact supply_step_debug. Qed.
+
+(* release profile: a block the wrapping validation accepts is accepted by the unbounded one too,
+   or a u64 operation wrapped (the checked run of the same validation gives no verdict) *)
+Theorem C02_release_accept_dichotomy : forall cap15 cap05 cf st b,
+  cf_dbg cf = false ->
+  validate cap15 cap05 cf st b = Ok true ->
+  validate_m cap15 cap05 cf MInf st b = Ok true \/
+  (forall v, validate_m cap15 cap05 cf (M64 true) st b <> Ok v).
+Proof. exact release_accept_dichotomy. Qed.
 
 (* the state invariant used above is kept by every such block and holds after the genesis block *)
 Theorem C02_invariant_kept : forall cap15 cap05 cf st b,
   Inv st -> located b ->
   validate_m cap15 cap05 cf MInf st b = Ok true ->
-  clean cap15 cap05 cf st b = true ->
+  clean cap05 cf st b = true ->
   Inv (wind cf st b).
 Proof. exact inv_step. Qed.
 
@@ -85,14 +92,36 @@ Theorem C02_no_overflow_mint : forall cap15 cap05 cf st b t,
   sumN (map s_amt (t_to t)) <= sumN (map s_amt (t_from t)).
 Proof. exact no_overflow_mint. Qed.
 
+(* ... including the wrap-around clause: the outputs may be anything (sums of 2^64 and more,
+   where the code's sums saturate); inputs below 2^64-1 suffice *)
+Theorem C02_no_overflow_mint_any_outputs : forall cap15 cap05 cf st b t,
+  validate_m cap15 cap05 cf MInf st b = Ok true ->
+  In t (b_txs b) -> user_tx t = true -> plain_tx t = true ->
+  sumN (map s_amt (t_from t)) < U64MAX ->
+  sumN (map s_amt (t_to t)) <= sumN (map s_amt (t_from t)).
+Proof. exact no_overflow_mint_any_outputs. Qed.
+
 (* the payout split distributes exactly what is due (fees of the parent, and of the grandparent
-   if the parent had no golden ticket) between fee transaction, treasury and graveyard — except
-   for the miner share of a golden ticket naming the zero key *)
+   if the parent had no golden ticket) between fee transaction, treasury and graveyard; the miner
+   share of a zero-key golden ticket is the only leak, and Block::validate refuses such a ticket *)
 Theorem C02_payout_split_exact : forall cap15 i gi nonfee p,
   payouts cap15 MInf i (Some gi) nonfee = Ok p ->
   fee_out_sum (p_fee_tx p) + p_treasury p + p_graveyard p + miner_lost i p = due i
   /\ exists f, p_fee_tx p = Some f /\ t_ty f = TFee /\ t_from f = [].
 Proof. exact payouts_gt_inf. Qed.
+
+(* the rebroadcast section balances in both branches (multiplier / 5 % cap), saturating
+   payout products and sums included:
+   outputs of the rebroadcasts + collected fees = volume that left the window + treasury payout *)
+Theorem C02_rebroadcast_section_balances : forall cap05 gp v i fees_new r,
+  txs_no_bound (atr_etxs gp i) = true ->
+  cap05 (pv i h_treasury) < U64MAX ->
+  atr_section cap05 MInf gp v i fees_new = Ok r ->
+  sumN (map (fun t => sumN (map s_amt (t_to t))) (r_hash r)) + r_fees r
+  = sumN (map (fun it => s_amt (snd it)) (atr_items gp v i)) + r_payout r
+  /\ r_rbs r = r_hash r
+  /\ (forall t, In t (r_hash r) -> exists it, In it (atr_items gp v i) /\ t_from t = [snd it]).
+Proof. exact atr_section_balance. Qed.
 
 (* the i128 smoothing terms stay between the old average and the new value (they never enter the supply) *)
 Theorem C02_smoothing_between : forall gp prev x, 0 < gp -> prev < two64 -> x < two64 ->
@@ -116,33 +145,31 @@ Theorem C02_check_total_supply_blind_refuted :
   big_node_supply cfr (big_slip 0 :: big_slip 1 :: u) h = big_node_supply cfr u h + two64.
 Proof. exact check_blind_to_2_64. Qed.
 
-(* ---------- the unguarded statement is false: accepted blocks that change the supply ---------- *)
-Theorem C02_conservation_refuted_fee_tx_omitted :
-  breaks_conservation cfw genesis [b2; b3; b4] b5_nofee
-  /\ Known_C02_fee_tx_omitted c15 c05 cfw s4 b5_nofee = true.
-Proof. exact fee_tx_omitted_breaks. Qed.
-
-Theorem C02_conservation_refuted_zero_key_golden_ticket :
-  breaks_conservation cfw genesis [b2; b3; b4] b5_zero
-  /\ Known_C02_zero_miner c15 c05 cfw s4 b5_zero = true.
-Proof. exact zero_miner_breaks. Qed.
-
-Theorem C02_conservation_refuted_blockstake_fee :
-  breaks_conservation cfw genesis [b2] b3_stake /\ Known_C02_special_tx b3_stake = true.
-Proof. exact stake_fee_breaks. Qed.
-
-Theorem C02_conservation_refuted_collected_output_spent :
-  breaks_conservation cfw genesis [b2; b3; b4; b5] b6_stale /\ Known_C13_expired_input cfw b6_stale = true.
-Proof. exact stale_spend_breaks. Qed.
-
-Theorem C02_conservation_refuted_nft_rebroadcast :
-  breaks_conservation cfw genesis [n2; n3; n4; n5] n6 /\ Known_C02_nft_expiring cfw t5 n6 = true.
-Proof. exact nft_expiring_breaks. Qed.
+(* ---------- regressions: the witnesses of the repaired defects ---------- *)
+Example C02_regression_fee_tx_omitted : refused cfw genesis [b2; b3; b4] b5_nofee.
+Proof. exact fee_tx_omitted_refused. Qed.
+Example C02_regression_zero_key_golden_ticket : refused cfw genesis [b2; b3; b4] b5_zero.
+Proof. exact zero_miner_refused. Qed.
+Example C02_regression_blockstake_fee : accepted_conserving cfw genesis [b2] b3_stake.
+Proof. exact stake_fee_conserved. Qed.
+Example C02_regression_collected_output_spent : refused cfw genesis [b2; b3; b4; b5] b6_stale.
+Proof. exact stale_spend_refused. Qed.
+Example C02_regression_nft_rebroadcast : accepted_conserving cfw genesis [n2; n3; n4; n5] n6.
+Proof. exact nft_expiring_conserved. Qed.
+Example C02_regression_stray_bound_output : refused cfw genesis [] m2.
+Proof. exact stray_bound_refused. Qed.
+Example C02_regression_spv_spends_bound_slip : refused cfw genesis [n2] q3.
+Proof. exact spv_bound_refused. Qed.
+Example C02_regression_payout_multiplier :
+  accepted_conserving cfw hg [hb2; hb3; hb4; hb5; hb6; hb7] hb8 /\
+  atr_mult 3 (the_input cfw h7 hb8) = 2 /\
+  match cv_inf c15 c05 cfw h7 hb8 with Ok c => c_cap c | _ => false end = true.
+Proof. exact producer_block_accepted. Qed.
 
 (* ---------- non-vacuity: a chain of five accepted blocks with payments, fees, golden tickets,
-   three rebroadcast outputs and two collected ones meets every hypothesis ---------- *)
+   two rebroadcast outputs and two collected ones meets every hypothesis ---------- *)
 Example C02_example_chain : genesis_ok genesis /\ Reach c15 c05 cfw genesis w6.
-Proof. split; [exact genesis_is_ok | exact reach_w6]. Qed.
+Proof. exact (conj genesis_is_ok reach_w6). Qed.
 Example C02_example_values :
   supply 3 w6 = 3930500 /\ supply 3 (genesis_state genesis) = 3930500 /\
   h_fees_atr (b_hdr b5) = 121060 /\ h_treasury (b_hdr b5) = 50000 /\ Nlen (block_atrs (b_txs b5)) = 2.
@@ -151,15 +178,13 @@ Proof. repeat split; vm_compute; reflexivity. Qed.
 Print Assumptions C02_supply_step.
 Print Assumptions C02_debug_accept_is_unbounded_accept.
 Print Assumptions C02_supply_step_debug.
+Print Assumptions C02_release_accept_dichotomy.
 Print Assumptions C02_invariant_kept.
 Print Assumptions C02_supply_conserved.
 Print Assumptions C02_no_overflow_mint.
+Print Assumptions C02_no_overflow_mint_any_outputs.
 Print Assumptions C02_payout_split_exact.
+Print Assumptions C02_rebroadcast_section_balances.
 Print Assumptions C02_smoothing_between.
 Print Assumptions C02_check_total_supply_sound_partial.
 Print Assumptions C02_check_total_supply_blind_refuted.
-Print Assumptions C02_conservation_refuted_fee_tx_omitted.
-Print Assumptions C02_conservation_refuted_zero_key_golden_ticket.
-Print Assumptions C02_conservation_refuted_blockstake_fee.
-Print Assumptions C02_conservation_refuted_collected_output_spent.
-Print Assumptions C02_conservation_refuted_nft_rebroadcast.
